@@ -226,12 +226,12 @@ func (e *Exec) scanCallMods(fn *ssa.Function, c *ssa.CallCommon, ms *modSet, see
 									}
 								case "vcModGhostAll":
 									if cst, ok := cc.Call.Args[0].(*ssa.Const); ok {
-										gn := constantString(cst)
+										gn := ghostCanon(constantString(cst))
 										ms.comps["G."+gn] = arraySort(e.ghostIdxOf(gn), e.ghostSortOf(gn))
 									}
 								case "vcModGhost":
 									if cst, ok := cc.Call.Args[0].(*ssa.Const); ok {
-										gn := constantString(cst)
+										gn := ghostCanon(constantString(cst))
 										ms.comps["G."+gn] = arraySort(e.ghostIdxOf(gn), e.ghostSortOf(gn))
 									}
 								case "vcModMap":
